@@ -315,6 +315,13 @@ def r7_oracle_wiring(repo):
         src(pos_r[0].value.elts[1]) == "transformer.error_injected"
     obs.append(Ob("C04-R7", "inject_fault:None-unless-is_transformed", _w(f), ok,
                   "inject_fault must return None when nothing was injected and (program, error_injected) otherwise"))
+    # exactly one injection: the mutation object is run once (a second transform() on the same object starts from the
+    # state of the first: candidates collected, a method already selected - two declarations may change, one is reported)
+    runs = [c for c in calls_in(f.node) if call_name(c) in ("_apply_transformation", "transform")]
+    loops = [c for c in runs if any(isinstance(a, (ast.For, ast.While)) for a in ancestors(c))]
+    obs.append(Ob("C04-R7", "inject_fault:the-mutation-runs-exactly-once", _w(f), len(runs) == 1 and not loops,
+                  "inject_fault applies the transformation through %s; expected exactly one application outside any loop"
+                  % [src(c)[:50] for c in runs]))
     f = repo.fn("hephaestus.process_ncp_transformations")
     call = [n for n in iter_own_nodes(f.node) if isinstance(n, ast.Assign) and isinstance(n.value, ast.Call) and
             call_name(n.value) == "inject_fault"]
